@@ -55,6 +55,8 @@ class LinearScaling(object):
             input_source)
 
     def scale(self, data):
+        # Ensure data is double precision before scaling (complex data stays complex)
+        data = data.astype(_double_precision_dtype(data.dtype), copy=False)
         return data * self.slope + self.intercept
 
 
@@ -137,6 +139,8 @@ class RtdScaling(object):
         # R(T) = R(0)[1 + A*T + B*T^2 + (T - 100)*C*T^3]
         # R(T) = V/I
 
+        # Ensure data is double precision
+        data = data.astype(np.dtype('float64'), copy=False)
         r_t = data / self.current_excitation
         r_t = _adjust_for_lead_resistance(
             r_t, CURRENT_EXCITATION, self.resistance_configuration, self.lead_wire_resistance)
@@ -444,6 +448,8 @@ class ThermocoupleScaling(object):
     def scale(self, data):
         """ Apply thermocouple scaling
         """
+        # Ensure data is double precision
+        data = data.astype(np.dtype('float64'), copy=False)
         # Note that the thermocouple conversions use mV for voltages, but TDMS uses uV.
         if self.scaling_direction == 1:
             return 1000.0 * self.thermocouple.celsius_to_mv(data)
@@ -531,6 +537,9 @@ class MultiScaling(object):
             return np.result_type(
                 self._compute_scale_dtype(scaling.left_input_source, raw_data_type, scaler_data_types),
                 self._compute_scale_dtype(scaling.right_input_source, raw_data_type, scaler_data_types))
+        elif isinstance(scaling, LinearScaling):
+            return _double_precision_dtype(
+                self._compute_scale_dtype(scaling.input_source, raw_data_type, scaler_data_types))
         elif isinstance(scaling, NoOpScaling):
             return raw_data_type.nptype
         else:
@@ -651,6 +660,14 @@ def _get_number_of_scalings(properties):
         return max(int(m.group(1)) for m in matches if m is not None) + 1
     except ValueError:
         return None
+
+
+def _double_precision_dtype(dtype):
+    """ The type linear scaling is computed in: double precision, keeping complex data complex
+    """
+    if np.issubdtype(dtype, np.complexfloating):
+        return np.dtype('complex128')
+    return np.dtype('float64')
 
 
 def _adjust_for_lead_resistance(
